@@ -20,6 +20,7 @@ fn main() {
             let code = lqv_core::run_property(&args[2], tier);
             std::process::exit(code);
         }
+        "replay" => std::process::exit(lqv_core::replay::replay(&args[2])),
         "worker" => match args[2].as_str() {
             "c11-table" => lqv_core::props::c11::print_table(),
             _ => usage(),
